@@ -608,74 +608,86 @@ func (c *Ctx) everySelectionCounted(fn *ssa.Function) {
 // to that field lies between that store and the call; Calculate receives exactly opCtx.Variables.
 func c14GateSeesCoercedVariables(c *Ctx) {
 	c.R.Rule("gate-sees-coerced-variables", "in Executor.CreateOperationContext every MutateOperationContext call (the complexity gate is one) is dominated by `opCtx.Variables = validator.VariableValues(...)` with no later store to that field before the call; ComplexityLimit passes the operation context's Variables to complexity.Calculate", 2)
-	fn := c.fn(pkgExecutor, "*Executor.CreateOperationContext")
-	if fn == nil {
+	create := c.fn(pkgExecutor, "*Executor.CreateOperationContext")
+	if create == nil {
 		return
 	}
-	var coerced []*ssa.Store
-	var others []*ssa.Store
-	for _, b := range fn.Blocks {
-		for _, in := range b.Instrs {
-			st, ok := in.(*ssa.Store)
-			if !ok {
-				continue
-			}
-			fa, ok := st.Addr.(*ssa.FieldAddr)
-			if !ok || fieldNameOf(fa) != "Variables" || !an.NamedIs(fa.X.Type().Underlying().(*types.Pointer).Elem(), pkgGraphql, "OperationContext") {
-				continue
-			}
-			if cc := an.AllExtractOf(st.Val, 0); cc != nil && an.CalleeOf(cc).FullName() == pkgValidator+".VariableValues" {
-				coerced = append(coerced, st)
-			} else {
-				others = append(others, st)
-			}
-		}
-	}
-	// the coercion may live in a same-package helper that receives the operation context: a call of a function that
-	// (transitively, depth 2) stores VariableValues' result into its OperationContext parameter's Variables counts as that store
-	var helperCalls []ssa.Instruction
-	for _, call := range an.CallsIn(fn, func(_ ssa.CallInstruction, ci an.CalleeInfo) bool {
+	// the mutators may be called by CreateOperationContext itself or by a helper of the package it hands the operation context to
+	// (`return opCtx, e.bindOperation(ctx, opCtx, params)`): each such function is examined the same way
+	fns := []*ssa.Function{create}
+	for _, call := range an.CallsIn(create, func(_ ssa.CallInstruction, ci an.CalleeInfo) bool {
 		return ci.Static != nil && ci.Static.Pkg != nil && ci.Static.Pkg.Pkg.Path() == pkgExecutor && len(ci.Static.Blocks) > 0
 	}) {
-		h := call.Common().StaticCallee()
-		for i, p := range h.Params {
-			if !an.NamedIs(p.Type(), pkgGraphql, "OperationContext") || i >= len(call.Common().Args) {
-				continue
-			}
-			if storesCoercedVariables(h, p, 0) {
-				if _, isCall := call.(*ssa.Call); isCall {
-					helperCalls = append(helperCalls, call)
-				}
-			}
+		if call.Parent() == create {
+			fns = append(fns, call.Common().StaticCallee())
 		}
 	}
 	n := 0
-	for _, call := range an.CallsIn(fn, func(_ ssa.CallInstruction, ci an.CalleeInfo) bool {
-		return ci.FullName() == "("+pkgGraphql+".OperationContextMutator).MutateOperationContext"
-	}) {
-		n++
-		var dom ssa.Instruction
-		for _, st := range coerced {
-			if an.Before(st, call) {
-				dom = st
-			}
-		}
-		for _, hc := range helperCalls {
-			if an.Before(hc, call) {
-				dom = hc
-			}
-		}
-		bad := ""
-		if dom == nil {
-			bad = "the operation-context mutators (complexity limit among them) run before the variables were coerced: arguments bound to omitted variables with defaults are costed as absent, and an over-limit operation passes the gate"
-		} else {
-			for _, st := range others {
-				if an.CanReach(dom, st) && an.CanReach(st, call) {
-					bad = "opCtx.Variables is overwritten at " + c.ipos(st) + " between coercion and the mutators"
+	for _, fn := range fns {
+		var coerced []*ssa.Store
+		var others []*ssa.Store
+		for _, b := range fn.Blocks {
+			for _, in := range b.Instrs {
+				st, ok := in.(*ssa.Store)
+				if !ok {
+					continue
+				}
+				fa, ok := st.Addr.(*ssa.FieldAddr)
+				if !ok || fieldNameOf(fa) != "Variables" || !an.NamedIs(fa.X.Type().Underlying().(*types.Pointer).Elem(), pkgGraphql, "OperationContext") {
+					continue
+				}
+				if cc := an.AllExtractOf(st.Val, 0); cc != nil && an.CalleeOf(cc).FullName() == pkgValidator+".VariableValues" {
+					coerced = append(coerced, st)
+				} else {
+					others = append(others, st)
 				}
 			}
 		}
-		c.R.Check(bad == "", "CreateOperationContext/mutators-after-coercion", c.ipos(call), "dominated by opCtx.Variables = VariableValues(...)", bad)
+		// the coercion may live in a same-package helper that receives the operation context: a call of a function that
+		// (transitively, depth 2) stores VariableValues' result into its OperationContext parameter's Variables counts as that store
+		var helperCalls []ssa.Instruction
+		for _, call := range an.CallsIn(fn, func(_ ssa.CallInstruction, ci an.CalleeInfo) bool {
+			return ci.Static != nil && ci.Static.Pkg != nil && ci.Static.Pkg.Pkg.Path() == pkgExecutor && len(ci.Static.Blocks) > 0
+		}) {
+			h := call.Common().StaticCallee()
+			for i, p := range h.Params {
+				if !an.NamedIs(p.Type(), pkgGraphql, "OperationContext") || i >= len(call.Common().Args) {
+					continue
+				}
+				if storesCoercedVariables(h, p, 0) {
+					if _, isCall := call.(*ssa.Call); isCall {
+						helperCalls = append(helperCalls, call)
+					}
+				}
+			}
+		}
+		for _, call := range an.CallsIn(fn, func(_ ssa.CallInstruction, ci an.CalleeInfo) bool {
+			return ci.FullName() == "("+pkgGraphql+".OperationContextMutator).MutateOperationContext"
+		}) {
+			n++
+			var dom ssa.Instruction
+			for _, st := range coerced {
+				if an.Before(st, call) {
+					dom = st
+				}
+			}
+			for _, hc := range helperCalls {
+				if an.Before(hc, call) {
+					dom = hc
+				}
+			}
+			bad := ""
+			if dom == nil {
+				bad = "the operation-context mutators (complexity limit among them) run before the variables were coerced: arguments bound to omitted variables with defaults are costed as absent, and an over-limit operation passes the gate"
+			} else {
+				for _, st := range others {
+					if an.CanReach(dom, st) && an.CanReach(st, call) {
+						bad = "opCtx.Variables is overwritten at " + c.ipos(st) + " between coercion and the mutators"
+					}
+				}
+			}
+			c.R.Check(bad == "", fn.Name()+"/mutators-after-coercion", c.ipos(call), "dominated by opCtx.Variables = VariableValues(...)", bad)
+		}
 	}
 	if n == 0 {
 		c.R.Fail("unresolved anchor: CreateOperationContext does not call MutateOperationContext")
